@@ -46,6 +46,9 @@ def schedule(dc, sc, res, rng, label, kind):
         base = dc.Cache(d, timeout=0)
         caches = [base if topo == 'shared' else dc.Cache(d, timeout=0) for _ in range(n)]
     value = rng.randrange(1, 4) if kind == 'semaphore' else 1
+    # the lock lives under an ordinary cache key: any key is legal, falsy ones too
+    lock_key = rng.choice(['the-lock', 'the-lock', '', 0, b'', ('lock', 1), 0.0])
+    res.count('lock_keys_falsy' if not lock_key else 'lock_keys_other')
     sch = Sched(rng, clock, strategy=rng.choice(['random', 'random', 'preempt']), max_steps=12000,
                 preempt_points={rng.randrange(0, 300) for _ in range(4)})
     # failpoints: a contender that is still waiting to get in (somebody else is inside) fails with an exception at one of
@@ -75,10 +78,10 @@ def schedule(dc, sc, res, rng, label, kind):
     def make(ci):
         c = caches[ci]
         if kind == 'lock' or kind == 'barrier':
-            return dc.Lock(c, 'the-lock')
+            return dc.Lock(c, lock_key)
         if kind == 'rlock':
-            return dc.RLock(c, 'the-lock')
-        return dc.BoundedSemaphore(c, 'the-lock', value=value)
+            return dc.RLock(c, lock_key)
+        return dc.BoundedSemaphore(c, lock_key, value=value)
 
     def critical(ci):
         me = sch._me()
@@ -117,7 +120,7 @@ def schedule(dc, sc, res, rng, label, kind):
             me.holding = False
             for rnd in range(rng.randrange(2, 5)):
                 if kind == 'barrier':
-                    @dc.barrier(caches[ci], factory, name='the-lock')
+                    @dc.barrier(caches[ci], factory, name=lock_key)
                     def work():
                         critical(ci)
                     me.phase = 'acquire'
@@ -185,7 +188,7 @@ def schedule(dc, sc, res, rng, label, kind):
         # releasing a free Lock leaves it free
         if kind == 'semaphore':
             # a semaphore is not owned: the bound is what is enforced, once nobody holds it
-            sem = dc.BoundedSemaphore(base, 'the-lock', value=value)
+            sem = dc.BoundedSemaphore(base, lock_key, value=value)
             try:
                 sem.release()
                 res.violation('BoundedSemaphore.release() beyond its bound was accepted', extra)
@@ -195,7 +198,7 @@ def schedule(dc, sc, res, rng, label, kind):
                 sem.acquire()
             sem.release()
         if kind == 'lock':
-            lk = dc.Lock(base, 'the-lock')
+            lk = dc.Lock(base, lock_key)
             lk.release()
             if lk.locked():
                 res.violation('releasing a free Lock left it locked', extra)
